@@ -209,9 +209,49 @@ func (p *Prog) Discs() []*Disc {
 		out = append(out, d)
 	}
 	sort.Slice(out, func(i, j int) bool { return out[i].Name < out[j].Name })
+	// private struct types that group fields of exactly one discipline by value (timing{interval,
+	// passAt}, accumulation{items, locked}): a field of such a component, addressed through the
+	// receiver of one of its methods, is a field of that discipline
+	owners := map[*types.Named][]*types.Named{}
+	for _, d := range out {
+		seen := map[*types.Named]bool{}
+		var walk func(t types.Type)
+		walk = func(t types.Type) {
+			st, ok := t.Underlying().(*types.Struct)
+			if !ok {
+				return
+			}
+			for i := 0; i < st.NumFields(); i++ {
+				ft := st.Field(i).Type()
+				nt, isNamed := ft.(*types.Named)
+				if !isNamed {
+					continue
+				}
+				nt = nt.Origin()
+				if nt.Obj().Pkg() != d.Named.Obj().Pkg() || nt.Obj().Exported() || seen[nt] {
+					continue
+				}
+				if _, isStruct := nt.Underlying().(*types.Struct); !isStruct {
+					continue
+				}
+				seen[nt] = true
+				owners[nt] = append(owners[nt], d.Named)
+				walk(nt)
+			}
+		}
+		walk(d.Named)
+	}
+	for nt, ds := range owners {
+		if len(ds) == 1 && by[nt] == nil {
+			componentOwner[nt] = ds[0]
+		}
+	}
 	p.discCache = out
 	return out
 }
+
+// componentOwner: private struct type -> the one discipline struct that holds it by value.
+var componentOwner = map[*types.Named]*types.Named{}
 
 func (p *Prog) Disc(name string) *Disc {
 	for _, d := range p.Discs() {
